@@ -115,6 +115,59 @@ fn guarded(f: impl FnOnce()) -> Outcome {
     out
 }
 
+/// Boundary between two elements of one `extend` call: the trace shows them as separate `push`
+/// ops, so the per-op counters are closed and reset here as `guarded` does at the end of an op.
+fn subop_boundary() {
+    let n = ALLOC_COUNT.swap(0, Relaxed);
+    if n > 0 {
+        logf!("alloc {n}");
+    }
+    POLLS_IN_OP.store(0, Relaxed);
+    g(|g| {
+        g.reg_count = 0;
+        g.pop_count = 0;
+    });
+}
+
+/// One buffered `push` line that is going to be an element of an `extend` call.
+pub struct ExtItem {
+    pub k: usize,
+    pub line: String,
+    pub cid: u32,
+    pub script: Script,
+}
+
+struct ExtState {
+    queue: std::collections::VecDeque<ExtItem>,
+    /// registry index of the element handed out last (accepted once the next one is asked for
+    /// or the call returns)
+    prev: Option<usize>,
+}
+
+/// The iterator given to `Extend::extend`: creates the children lazily and writes the op line
+/// of each element when the crate asks for it.
+struct MarkIter {
+    st: std::rc::Rc<std::cell::RefCell<ExtState>>,
+}
+
+impl Iterator for MarkIter {
+    type Item = Fut;
+    fn next(&mut self) -> Option<Fut> {
+        let _cb = CbGuard::enter();
+        let mut st = self.st.borrow_mut();
+        if let Some(idx) = st.prev.take() {
+            set_accepted(idx);
+            logf!("ret ok");
+            subop_boundary();
+        }
+        let it = st.queue.pop_front()?;
+        logf!("op {} {}", it.k, it.line);
+        let f = Fut::new(it.cid, it.script, false);
+        st.prev = Some(f.idx());
+        Some(f)
+    }
+}
+
 fn drop_out<T>(v: T) {
     DROPPING_OUT.store(true, Relaxed);
     drop(v);
@@ -336,6 +389,43 @@ impl Hist {
                 }
             }
             Op::Env(_) | Op::Cleanup => unreachable!(),
+        }
+    }
+
+    /// can the buffered plain pushes go through `Extend::extend`?
+    pub fn supports_extend(&self) -> bool {
+        !self.dead && !self.dropped && matches!(&*self.coll, Some(Coll::Fob(_) | Coll::Fo(_)))
+    }
+
+    /// `#!extend N`: the buffered `push` lines are the elements of one `extend` call (a panic of
+    /// `push_back` inside it ends that call; what is left goes into another one)
+    pub fn run_extend(&mut self, items: Vec<ExtItem>) {
+        let mut queue: std::collections::VecDeque<ExtItem> = items.into();
+        while !queue.is_empty() && !self.dead {
+            let st = std::rc::Rc::new(std::cell::RefCell::new(ExtState { queue, prev: None }));
+            let st2 = st.clone();
+            let st3 = st.clone();
+            let coll = (*self.coll).as_mut().unwrap();
+            let out = guarded(move || {
+                let it = MarkIter { st: st2 };
+                match coll {
+                    Coll::Fob(c) => in_crate(move || c.extend(it)),
+                    Coll::Fo(c) => in_crate(move || c.extend(it)),
+                    _ => unreachable!("checked by supports_extend"),
+                }
+                if let Some(idx) = st3.borrow_mut().prev.take() {
+                    set_accepted(idx);
+                    logf!("ret ok");
+                }
+            });
+            let mut b = st.borrow_mut();
+            b.prev = None;
+            queue = std::mem::take(&mut b.queue);
+            drop(b);
+            match out {
+                Outcome::Done | Outcome::Panicked => {}
+                Outcome::Runaway => self.mark_dead(),
+            }
         }
     }
 
